@@ -40,6 +40,12 @@ PROGRAMS = [
     "try:\n    from pa import f\nexcept ImportError:\n    from pb import f\nprint(f(1))\n",
     # star import providing names, plus an explicit import of one of them
     "from pd import *\nfrom pd import sc\nprint(sa(1), sc(2))\n",
+    # a lambda / nested def inside a function, then a read of a name imported later at module level
+    "import pb\ndef compute(vs):\n    key = lambda v: v\n    return [pa.f(key(v), pb.n) for v in vs]\nimport pa\nprint(compute([1, 2]))\n",
+    "import pb\ndef compute(vs):\n    def key(v):\n        return v\n    return [pa.f(key(v), pb.n) for v in vs]\nimport pa\nprint(compute([1, 2]))\n",
+    # __future__ import next to a capitalised module, a relative-looking order trap for merged sorting
+    "from __future__ import annotations\nimport Pq\nfrom pa import f\nprint(Pq.zf(1), f(2))\n",
+    "from __future__ import division\nfrom Pq import ZK\nimport pa\nprint(ZK / 2, pa.K)\n",
     # string annotation / f-string uses
     "from pa import C\ndef ann(x: 'C') -> 'C':\n    return x\nprint(ann(1), f'{C().m(1)}')\n",
 ]
